@@ -55,8 +55,273 @@ fn holder(tier: &str) -> Vec<String> {
     v
 }
 
+/// All handle histories of length <= n over {E(h), C(h), D(h)} with at most 3 handles ever
+/// created, every referenced handle alive, and at least one emit.
+fn handle_histories(n: usize) -> Vec<String> {
+    fn rec(cur: &mut Vec<String>, alive: &mut Vec<bool>, n: usize, out: &mut Vec<String>) {
+        if cur.iter().any(|o| o.starts_with('E')) {
+            out.push(cur.concat());
+        }
+        if cur.len() == n {
+            return;
+        }
+        for h in 0..alive.len() {
+            if !alive[h] {
+                continue;
+            }
+            cur.push(format!("E{}", h));
+            rec(cur, alive, n, out);
+            cur.pop();
+            if alive.len() < 3 {
+                cur.push(format!("C{}", h));
+                alive.push(true);
+                rec(cur, alive, n, out);
+                alive.pop();
+                cur.pop();
+            }
+            cur.push(format!("D{}", h));
+            alive[h] = false;
+            rec(cur, alive, n, out);
+            alive[h] = true;
+            cur.pop();
+        }
+    }
+    let mut out = vec![];
+    rec(&mut vec![], &mut vec![true], n, &mut out);
+    out
+}
+
+fn all_scripts(alpha: &[char], n: usize) -> Vec<String> {
+    let mut v = vec![String::new()];
+    for _ in 0..n {
+        v = v.iter().flat_map(|s| alpha.iter().map(move |c| format!("{}{}", s, c))).collect();
+    }
+    v
+}
+
+/// Append preemption bound and execution cap to a queue spec, chosen from the size of the
+/// program: small programs are explored without any bound (all interleavings).
+fn bounded(spec: String, tier: &str) -> String {
+    let spec = match spec.find(":P=") {
+        // explicit bounds in the generators are upper limits; the weight rule below may lower them
+        Some(i) => {
+            let rest = &spec[i + 3..];
+            let end = rest.find(':').map(|e| i + 3 + e).unwrap_or(spec.len());
+            format!("{}{}", &spec[..i], &spec[end..])
+        }
+        None => spec,
+    };
+    let get = |k: &str| spec.split(':').find_map(|p| p.strip_prefix(k)).unwrap_or("").to_string();
+    let prog = get("prog=");
+    let prods = get("prod=");
+    let script = get("script=");
+    let samples: usize = get("sampler=").parse().unwrap_or(0);
+    let emits = prog.matches('E').count() + prods.matches('E').count();
+    let panics = script.matches('p').count().min(emits);
+    let reads = prog.matches('R').count();
+    let threads = if prods.is_empty() { 0 } else { prods.split(',').count() } + if samples > 0 { 1 } else { 0 };
+    let w = emits + panics + samples + reads / 2 + 2 * threads;
+    let th = tier == "thorough";
+    let p = if threads == 0 {
+        if w <= if th { 4 } else { 3 } {
+            None
+        } else if w <= if th { 6 } else { 5 } {
+            Some(if th { 4 } else { 3 })
+        } else {
+            Some(if th { 3 } else { 2 })
+        }
+    } else if w <= 6 {
+        Some(if th { 3 } else { 2 })
+    } else if w <= 9 {
+        Some(2)
+    } else {
+        Some(if th { 2 } else { 1 })
+    };
+    let cap = if th { 4_000_000 } else { 400_000 };
+    match p {
+        None => format!("{}:max={}", spec, cap),
+        Some(p) => format!("{}:P={}:max={}", spec, p, cap),
+    }
+}
+
+fn c08(tier: &str) -> Vec<String> {
+    let th = tier == "thorough";
+    let mut v = vec![];
+    let caps: &[&str] = if th { &["u", "1", "2", "0"] } else { &["u", "1"] };
+    let scripts: &[&str] = if th { &["", "e", "p", "op", "pp"] } else { &["", "p"] };
+    for h in handle_histories(if th { 5 } else { 4 }) {
+        // a history that ends with all handles dropped cannot wait
+        for cap in caps {
+            for sc in scripts {
+                v.push(format!("queue:cap={}:script={}:prog={}W", cap, sc, h));
+                v.push(format!("queue:cap={}:script={}:prog={}", cap, sc, h));
+            }
+        }
+    }
+    // many queued metrics, all handles dropped at once, panics in between
+    for cap in ["u", "4"] {
+        for sc in ["p", "op", "pop", "ppp", "oop"] {
+            v.push(format!("queue:cap={}:script={}:prog=E0E0E0E0", cap, sc));
+            v.push(format!("queue:cap={}:script={}:prog=C0E0E1E0E1D0", cap, sc));
+        }
+    }
+    // concurrent producers
+    let pb = if th { 3 } else { 2 };
+    let prods: &[&str] = if th { &["E,E", "EE,E", "EE,ED", "ED,ED", "EE,EE", "E,E,E", "EED,E"] } else { &["E,E", "EE,E", "EE,ED", "ED,ED", "EE,EE"] };
+    for cap in ["u", "1", "2"] {
+        for pr in prods {
+            for prog in ["SJW", "SJ", "SE0JW", "SD0J"] {
+                let p = if pr.matches(',').count() >= 2 { pb.min(2) } else { pb };
+                v.push(format!("queue:cap={}:prog={}:prod={}:P={}", cap, prog, pr, p));
+            }
+        }
+    }
+    v
+}
+
+fn c09(tier: &str) -> Vec<String> {
+    let th = tier == "thorough";
+    let mut v = vec![];
+    let kmax = if th { 4 } else { 3 };
+    for cap in ["0", "1", "2", "3", "u"] {
+        let c: usize = cap.parse().unwrap_or(3);
+        for k in 0..=(c + 1).min(kmax) {
+            for sc in all_scripts(&['o', 'e', 'p'], k) {
+                let emits = "E0".repeat(k);
+                v.push(format!("queue:cap={}:script={}:prog={}D0", cap, sc, emits));
+                if k >= 1 {
+                    // forced occupancy: the first call blocks until after the drop
+                    v.push(format!("queue:cap={}:script=b{}:prog={}D0O", cap, &sc[1..], emits));
+                }
+            }
+        }
+        // several handles, last one dropped by another owner
+        for prog in ["C0E0E1D0D1", "C0E1D1E0D0", "C0C1E2D0D1E2D2", "C0E0D0E1D1"] {
+            for sc in ["", "p", "ep"] {
+                v.push(format!("queue:cap={}:script={}:prog={}", cap, sc, prog));
+            }
+        }
+        for pr in ["E,E", "ED,E", "EE,ED"] {
+            v.push(format!("queue:cap={}:prog=SD0J:prod={}:P={}", cap, pr, if th { 3 } else { 2 }));
+            v.push(format!("queue:cap={}:script=pp:prog=SD0J:prod={}:P={}", cap, pr, if th { 3 } else { 2 }));
+        }
+    }
+    v
+}
+
+fn c10(tier: &str) -> Vec<String> {
+    let th = tier == "thorough";
+    let mut v = vec![];
+    for cap in ["1", "2", "3", "u"] {
+        let c: usize = cap.parse().unwrap_or(2);
+        let n = c + 2;
+        let emits = "E0".repeat(n);
+        for (sc, tail) in [("", ""), (&*"e".repeat(n), ""), (&*"p".repeat(n), ""), ("b", ""), ("ob", ""), ("b", "O")] {
+            for order in ["hc", "ch"] {
+                v.push(format!("queue:cap={}:script={}:order={}:prog={}{}", cap, sc, order, emits, tail));
+            }
+            v.push(format!("queue:cap={}:script={}:h=0:prog={}{}", cap, sc, emits, tail));
+        }
+        // concurrent producers racing for the last slots
+        let prods: Vec<String> = if th { vec!["EE,EE".into(), "EEE,EE".into(), "E,E,E".into(), "EE,E,E".into()] } else { vec!["EE,EE".into(), "E,E,E".into()] };
+        for pr in prods {
+            for sc in ["", "b", "pp"] {
+                let p = if pr.matches(',').count() >= 2 { 2 } else if th { 3 } else { 2 };
+                v.push(format!("queue:cap={}:script={}:prog=SJ:prod={}:P={}", cap, sc, pr, p));
+            }
+        }
+    }
+    v
+}
+
+fn c11(tier: &str) -> Vec<String> {
+    let th = tier == "thorough";
+    let mut v = vec![];
+    let nmax = if th { 4 } else { 3 };
+    for n in 1..=nmax {
+        for sc in all_scripts(&['o', 'e', 'p'], n) {
+            if !sc.contains('p') {
+                continue;
+            }
+            let emits = "E0".repeat(n);
+            let pb = "";
+            for cap in ["u", "2"] {
+                // wait, read the counters, emit more, read again, drop
+                v.push(format!("queue:cap={}:script={}:prog={}QRE0E0QR{}", cap, sc, emits, pb));
+                // stop pending while panics happen
+                v.push(format!("queue:cap={}:script={}:prog={}{}", cap, sc, emits, pb));
+            }
+        }
+    }
+    // panics after the scripted prefix too (later metrics panic)
+    for sc in ["opop", "oopp", "popo"] {
+        v.push(format!("queue:cap=u:script={}:prog=E0E0QRE0E0QR", sc));
+    }
+    for pr in ["E,E", "EE,E"] {
+        for sc in ["p", "pp", "op"] {
+            v.push(format!("queue:cap=u:script={}:prog=SJQR:prod={}:P={}", sc, pr, if th { 3 } else { 2 }));
+        }
+    }
+    v
+}
+
+fn c15(tier: &str) -> Vec<String> {
+    let th = tier == "thorough";
+    let mut v = vec![];
+    let pb = if th { 3 } else { 2 };
+    for cap in ["1", "2", "u"] {
+        for sc in ["", "p", "e"] {
+            for (prog, prods, samples) in [
+                ("SJQR", "EE", 1),
+                ("SJQR", "EE", 2),
+                ("SJQR", "EE,EE", 1),
+                ("SE0E0JQR", "EE", 1),
+                ("SJQR", "EEE", 1),
+                ("SJQR", "EE,E", if th { 2 } else { 1 }),
+                ("SJQRE0QR", "E,E", 0),
+                ("C0SJD1QR", "EE,EE", 0),
+            ] {
+                v.push(format!("queue:cap={}:script={}:prog={}:prod={}:sampler={}:P={}", cap, sc, prog, prods, samples, pb));
+            }
+            // single threaded histories with refused emits, counters read at every quiescent point
+            v.push(format!("queue:cap={}:script={}:prog=E0E0E0QRE0QRE0E0QR", cap, sc));
+            v.push(format!("queue:cap={}:script={}:prog=RE0RE0RQR", cap, sc));
+        }
+    }
+    v
+}
+
+fn c16(tier: &str) -> Vec<String> {
+    let th = tier == "thorough";
+    let mut v = vec![];
+    let nmax = if th { 4 } else { 3 };
+    for n in 1..=nmax {
+        for sc in all_scripts(&['o', 'e', 'i', 'w'], n) {
+            let emits = "E0".repeat(n);
+            for cap in ["u", "2"] {
+                for (h, order) in [(1, "hc"), (1, "ch"), (0, "hc")] {
+                    v.push(format!("queue:cap={}:script={}:h={}:order={}:prog={}W", cap, sc, h, order, emits));
+                }
+            }
+        }
+    }
+    for pr in ["E,E", "EE,E"] {
+        for sc in ["e", "ee", "oe", "ie"] {
+            v.push(format!("queue:cap=u:script={}:prog=SJW:prod={}:P={}", sc, pr, if th { 3 } else { 2 }));
+        }
+    }
+    v
+}
+
 pub fn instances(prop: &str, tier: &str) -> Vec<String> {
+    let q = |v: Vec<String>| v.into_iter().map(|s| bounded(s, tier)).collect::<Vec<_>>();
     match prop {
+        "C08" => q(c08(tier)),
+        "C09" => q(c09(tier)),
+        "C10" => q(c10(tier)),
+        "C11" => q(c11(tier)),
+        "C15" => q(c15(tier)),
+        "C16" => q(c16(tier)),
         "C18" => holder(tier),
         "C05" | "C06" | "C07" | "C19" => writer(tier),
         _ => vec![],
